@@ -10,8 +10,10 @@ from . import tc
 
 
 class Fact:
-    def __init__(self, key, expr, expect, decls="", may_reject=False, meta=None):
+    def __init__(self, key, expr, expect=None, decls="", may_reject=False, meta=None, judge=None):
+        """expect: exact value required; or judge(value) -> None (ok) | str (why refuted)"""
         self.key, self.expr, self.expect, self.decls = key, expr, expect, decls
+        self.judge = judge
         self.may_reject, self.meta = may_reject, meta or {}
         self.value = None
         self.status = None  # proved | refuted | rejected | broken
@@ -25,13 +27,14 @@ def _src(cfg, facts, gcc):
     linemap = {}
     seen_decl = set()
     for i, f in enumerate(facts):
-        if f.decls and f.decls not in seen_decl:
-            seen_decl.add(f.decls)
-            for dl in f.decls.split("\n"):
-                lines.append(dl)
-                linemap[len(lines)] = ("decl", i)
+        for d in ([f.decls] if isinstance(f.decls, str) else list(f.decls)):
+            if d and d not in seen_decl:
+                seen_decl.add(d)
+                for dl in d.split("\n"):
+                    lines.append(dl)
+                    linemap[len(lines)] = ("decl", i)
         if gcc:
-            lines.append("static_assert((long long)(%s) == %dLL, \"F%d\");" % (f.expr, f.expect, i))
+            lines.append("static_assert((long long)(%s) == %dLL, \"F%d\");" % (f.expr, f.expect if f.expect is not None else f.value, i))
         else:
             lines.append('extern "C" const long long f%d = (long long)(%s);' % (i, f.expr))
         linemap[len(lines)] = ("fact", i)
@@ -62,7 +65,13 @@ def _run_clang(work, tag, cfg, facts):
                     fa.status, fa.detail = "broken", "fact constant not found in IR (not a constant expression?)"
                     continue
                 fa.value = vals[li]
-                fa.status = "proved" if fa.value == fa.expect else "refuted"
+                if fa.judge is not None:
+                    why = fa.judge(fa.value)
+                    fa.status = "proved" if why is None else "refuted"
+                    if why:
+                        fa.detail = why
+                else:
+                    fa.status = "proved" if fa.value == fa.expect else "refuted"
             return
         bad = {}
         for blk in re.split(r"(?m)^(?=\S+:\d+:\d+: (?:fatal )?error:)", se):
@@ -86,7 +95,7 @@ def _run_clang(work, tag, cfg, facts):
             if kind == "decl":
                 # a declaration shared by several facts failed: all facts using it are affected
                 for gj in active:
-                    if facts[gj].decls == fa.decls:
+                    if facts[gj].decls == fa.decls or gj == gi:
                         drop.add(gj)
                         facts[gj].status = "rejected" if facts[gj].may_reject else "broken"
                         facts[gj].detail = msg[:400]
@@ -101,7 +110,7 @@ def _run_clang(work, tag, cfg, facts):
 
 
 def _run_gcc(work, tag, facts):
-    sub = [f for f in facts if f.status == "proved"]
+    sub = [f for f in facts if f.status in ("proved", "refuted") and f.value is not None and (f.judge is not None or f.status == "proved")]
     if not sub:
         return
     src, linemap = _src("clang", sub, True)
@@ -121,6 +130,7 @@ def _run_gcc(work, tag, facts):
         fa = sub[ent[1]]
         if "static assertion failed" in m.group(2):
             fa.gcc_status = "refuted"
+            fa.detail = (fa.detail + "; " if fa.detail else "") + "g++ computes a different value than clang (%s)" % fa.value
         else:
             fa.gcc_status = "broken"
             fa.detail = "g++: " + m.group(2)[:300]
